@@ -28,8 +28,10 @@ DFailed(d, r) ==
             /\ Classified(d, r, "l", CurLegacyObs(d, r))
          THEN {} ELSE {"PinnedClassified"})
 
+(* (the "root" universe -- the template "/" -- is run against the code and judged by the contract; the        *)
+(* implementation-shaped models do not model the routers' handling of an empty template segment yet)      *)
 DesignOK ==
-   Complete => LET d == TheDoc IN
+   (Complete /\ kind # "root") => LET d == TheDoc IN
                \A r \in Requests(d) :
                   LET f == DFailed(d, r) IN
                   f = {} \/ (PrintT(<<"design check failed", f, r, d>>) /\ FALSE)
